@@ -18,6 +18,45 @@ ASSUMPTIONS = ["LP64 data model of this platform (long == intmax_t == 64 bits) f
 FAMILY = re.compile(r"^asn_(\w+2INTEGER|INTEGER2\w+)$")
 
 
+def r16_5(prog):
+    """A numeral is the whole text.  Wherever the REAL code hands text to the C library's strtod()/strtol() family with
+    an end pointer `&e`, what stopped the scan is looked at: `*e` is read (or e is compared with something other than
+    the start of the text) on the way to every return.  `e == start` alone only says that *something* was parsed:
+    `1.5abc`, `1,5` and `0x1p4junk` are then accepted as numerals."""
+    from ..model import walk, strip_casts, is_var, tree_text
+    r = Rule("R16.5", "after strtod()/strtol() with an end pointer, the character that stopped the scan is examined", floor=2)
+    fam = {"strtod", "strtol", "strtoul", "strtoll", "strtoull", "strtoimax", "strtoumax", "strtof", "strtold"}
+    for f in sorted(prog.funcs.values(), key=lambda f: f.key):
+        n = 0
+        for b, i, e in f.calls():
+            if e.get("callee") not in fam or len(e.get("args", [])) < 2:
+                continue
+            t = strip_casts(e["args"][1]["tree"])
+            if not (isinstance(t, list) and t and t[0] == "un" and t[1] == "&" and is_var(t[2])):
+                continue
+            ev = strip_casts(t[2])[1]
+            start = strip_casts(e["args"][0]["tree"])
+            n += 1
+            key = "%s(&%s)#%d" % (e["callee"], ev.split("@")[0], n)
+            looked = False
+            for b2, line, tree in f.all_trees():
+                for nd in walk(tree):
+                    if nd[0] == "un" and nd[1] == "*" and is_var(nd[2], ev):
+                        looked = True
+                    if nd[0] == "sub" and is_var(nd[1], ev):
+                        looked = True
+                    if nd[0] == "bin" and nd[1] in ("==", "!=", "<", ">", "<=", ">="):
+                        l, rr = strip_casts(nd[2]), strip_casts(nd[3])
+                        for a_, o_ in ((l, rr), (rr, l)):
+                            if is_var(a_, ev) and not (is_var(o_) and is_var(start) and strip_casts(o_)[1] == strip_casts(start)[1]):
+                                looked = True
+            if looked:
+                r.ok(f, key, "`*%s` is read (or %s is compared with something other than the start of the text)" % (ev.split("@")[0], ev.split("@")[0]), e["line"])
+            else:
+                r.bad(f, key, "the end pointer is only compared with the start of the text: anything after a leading numeral is ignored", e["line"])
+    return r
+
+
 def run(ctx):
     prog = ctx.prog("S")
     r1 = Rule("R16.1", "no unguarded sign-changing or narrowing implicit conversion of the value in the INTEGER conversion helpers", floor=8)
@@ -110,7 +149,7 @@ def run(ctx):
             r2.ok(f, "sign-test", "sign bit of the first octet is tested; that edge sets errno = ERANGE and returns -1", found.term.get("line"))
         else:
             r2.bad(f, "sign-test", "the sign-bit test does not lead to errno = ERANGE and a negative return", found.term.get("line"))
-    return [r1, r2, r16_3(prog), r16_4(prog)]
+    return [r1, r2, r16_3(prog), r16_4(prog), r16_5(prog)]
 
 
 def r16_4(prog):
